@@ -11,7 +11,7 @@ CHECKS = {
   cat="exploration", ref="DESIGN.md section 3, C01",
   technique="runtime monitoring: client-boundary emit log vs independent stream decoder, on ASan+UBSan libovni",
   text="Generated op scripts (boundary sweep over every distance 1..64 of the 2 MiB buffer limit, op soups, dense "
-       "automatic flushes, multi-thread, genuine partial writes, writes failing with EINTR, programs without a standard input) are executed against the real libovni built with "
+       "automatic flushes, multi-thread, genuine partial writes, writes failing with EINTR, programs without a standard input, several processes writing into one trace directory, streams padded to an exact multiple of a block size) are executed against the real libovni built with "
        "ASan+UBSan; every stream.obs is decoded by an independent parser and must equal, event for event and byte for "
        "byte, the log the driver wrote before each API call, flush markers aside. Held on the executions observed, "
        "not a proof over all programs.",
@@ -138,7 +138,8 @@ CHECKS = {
        "future, clock gaps of several seconds, also into a previous region, at the start and before the first event of the stream) are sorted by the real ovnisort with look-back windows from just above the "
        "needed depth (the ring wraps and is rebuilt) to the default. Exit 0 is required and the decoded result must "
        "equal the stable sort by clock of the original list (permutation, bytes, order and tie stability in one "
-       "comparison), same size; a second run must change nothing, ovnisort -c and ovniemu -l must accept. Streams whose "
+       "comparison), same size; a second run must change nothing, ovnisort -c and ovniemu -l must accept. "
+       "A quarter of the cases run under an LD_PRELOAD shim that makes pwrite() transfer 1-64 bytes at a time. Streams whose "
        "destination is more than twice the window back must fail with a message for every window size from 4 up. Thorough runs a share under "
        "ASan+UBSan with the heap stream buffer.",
   note="Nothing is asserted between n/2 and 2n events of look-back. Tie stability rests on glibc's qsort being a "
